@@ -9,7 +9,7 @@ CONSTANTS ExactMax = 128
           Props = {{"e"}}
           Vecs <- {vecs}
           Qs <- {qs}
-          Ks = {{1,2,3}}
+          Ks = {ks}
           Keys <- {keys}
           MetricsUsed = {metrics}
           MaxHist = {maxh}
@@ -79,10 +79,11 @@ def corrupt(ev, rng):
 def run(ctx):
     q = ctx.quick
     W = min(6, int(os.environ.get("VERIF_WORKERS", "6")))
-    small = dict(ids="{1,2}", ls="LS3", vecs="V4", qs="Q2", keys="KeysABe")
+    small = dict(ids="{1,2}", ls="LS3", vecs="V4", qs="Q2", keys="KeysABe", ks="{1,2,3}")
+    mini = dict(ids="{1,2}", ls="LS1", vecs="V3", qs="Q1", keys="KeysAe", ks="{1,2}")
     # self-tests = witnesses: each deviation alone makes the physical model answer wrongly
     for inv in ("DevSoundStale", "DevSoundDead", "DevSoundMetric"):
-        ctx.tlc_gen("MC_VectorIdx", GEN.format(maxh=3, metrics=ALLM, view="VIEW View", emit="", inv=inv, **dict(small, keys="KeysAe")),
+        ctx.tlc_gen("MC_VectorIdx", GEN.format(maxh=3, metrics='{"cosine","l2"}', view="VIEW View", emit="", inv=inv, **mini),
                     "selftest-" + inv, expect_violation=True, workers=2)
     # design checks + transition cover of the (logical + physical) state graph
     scripts = ctx.tlc_gen("MC_VectorIdx", GEN.format(maxh=3 if q else 4, metrics=ALLM, view="VIEW View", emit="ACTION_CONSTRAINT Emit",
@@ -90,11 +91,11 @@ def run(ctx):
     if not q:
         scripts += ctx.tlc_gen("MC_VectorIdx", GEN.format(maxh=3, metrics=ALLM, view="VIEW View", emit="ACTION_CONSTRAINT Emit",
                                                           inv="Satisfiable DirectWording",
-                                                          **dict(ids="{1,2,3}", ls="LS4", vecs="V8", qs="Q3", keys="KeysABe")),
+                                                          **dict(ids="{1,2,3}", ls="LS4", vecs="V8", qs="Q3", keys="KeysABe", ks="{1,2,3}")),
                                "cover3", workers=W, timeout=3000)
     # long random walks of the model (3 nodes, 6-8 vectors)
     scripts += ctx.tlc_gen("MC_VectorIdx", GEN.format(maxh=10 if q else 14, metrics=ALLM, view="", emit="", inv="SimEmit",
-                                                      **dict(ids="{1,2,3}", ls="LS4", vecs="V6" if q else "V8", qs="Q3", keys="KeysABe")),
+                                                      **dict(ids="{1,2,3}", ls="LS4", vecs="V6" if q else "V8", qs="Q3", keys="KeysABe", ks="{1,2,3}")),
                            "walks", simulate=(150 if q else 2500, 16), workers=4)
     scripts = drop_prefixes(scripts)
     ctx.cov["scripts_after_prefix_removal"] = len(scripts)
